@@ -350,6 +350,28 @@ func c12Bases(c *sup.Ctx) []refdl.Scenario {
 		chk(qe([]refdl.Atom{atom("scopes", vs)}, []rx.Op{{Kind: rx.OpValue, V: vs}, {Kind: rx.OpValue, V: rx.SetOf(rx.Str("root"))}, {Kind: rx.OpBinary, B: rx.Union}, {Kind: rx.OpUnary, U: rx.Length}, {Kind: rx.OpValue, V: rx.Int(4)}, {Kind: rx.OpBinary, B: rx.Equal}})),
 	}
 	setPol := []refdl.Policy{allow(qe([]refdl.Atom{atom("scopes", vs)}, binExpr(vs, rx.Contains, rx.Str("read"))))}
+	// two checks with regular expressions of their own: in another order the patterns are
+	// interned at each other's symbol index
+	vn := rx.Var("n")
+	reChecks := []refdl.Check{
+		chk(qe([]refdl.Atom{atom("path", vn)}, binExpr(vn, rx.Regex, rx.Str("^/a/")))),
+		chk(qe([]refdl.Atom{atom("name", vn)}, binExpr(vn, rx.Regex, rx.Str("\\.txt$")))),
+	}
+	for checksIn := 0; checksIn < 3; checksIn++ {
+		for _, path := range []string{"/a/file.txt", "/a/file.pdf"} {
+			s := refdl.Scenario{Policies: []refdl.Policy{allow(qTrue)}, Blocks: []refdl.Block{{}}}
+			s.Auth.Facts = []refdl.Atom{atom("path", rx.Str("/a/dir")), atom("name", rx.Str(path))}
+			switch checksIn {
+			case 0:
+				s.Auth.Checks = reChecks
+			case 1:
+				s.Authority.Checks = reChecks
+			case 2:
+				s.Blocks[0].Checks = reChecks
+			}
+			out = append(out, s)
+		}
+	}
 	for factIn := 0; factIn < 2; factIn++ {
 		for checksIn := 0; checksIn < 3; checksIn++ {
 			s := refdl.Scenario{Policies: setPol, Blocks: []refdl.Block{{}}}
